@@ -53,7 +53,8 @@ from ..engine.report import AnalysisError, Run
 from ..engine.resolver import FuncInfo, Program, body_walk
 from ..engine.terms import Poly, TermEval
 from ..engine.util import find_calls, method_call, nodes_with_call, u
-from ._c02_util import (BDA, BM, MOD, MinMax, Region, Roles, Wrong, all_calls, at, at_least, callee, ctor_args,
+from ._c02_util import (BDA, BM, MOD, MinMax, Region, Roles, Wrong, all_calls, at, at_least, callee, created_as,
+                        ctor_args,
                         discover_roles, fields_of, has, is_zero, negative_established, nonzero_established, ordered,
                         zero_test,
                         prep, q, regions, sc, strictly, table_sources, test_paths, the_call, value_before, writes)
@@ -310,7 +311,13 @@ def check_inv(run: Run, prog: Program) -> None:
     run.analysed(fn.qual)
     incl, excl = roles.mip["incl"], roles.mip["excl"]
     outs = set()
-    for st in body_walk(fn.node):
+    if not has(prog, "mip"):
+        # the split is part of the allocation function: its table is what that function returns as set-points
+        t = _split_table(prog, fn)
+        if t is None:
+            raise AnalysisError(f"{fn.qual}: no split function and no set-point table filled here and returned")
+        outs.add(t)
+    for st in body_walk(fn.node) if has(prog, "mip") else ():
         if isinstance(st, ast.Return):
             if not (isinstance(st.value, ast.Tuple) and st.value.elts and isinstance(st.value.elts[0], ast.Name)):
                 raise AnalysisError(f"{fn.qual}: result is not (set-point table, undistributed): {u(st)}")
@@ -355,9 +362,9 @@ def check_inv(run: Run, prog: Program) -> None:
         for p, st in r.paths:
             if st not in ("next", "continue"):
                 continue
-            has = bool(writes(p, is_out)) or any(
+            stored = bool(writes(p, is_out)) or any(
                 e.kind == "loop" and id(e.orig) in storing for e in p.effects)
-            run.check(has, "C02.INV", fn.qual, f"loop at line {getattr(r.loop, 'lineno', '?')}: pass without a store",
+            run.check(stored, "C02.INV", fn.qual, f"loop at line {getattr(r.loop, 'lineno', '?')}: pass without a store",
                       f"a pass through this loop stores no set-point into `{out}`: the inverter is left without "
                       "a (zero or bounded) set-point while the group's power is still accounted for",
                       node=at(p.conds[-1][3] if p.conds else getattr(r.loop, "lineno", 0)), file=fn.file,
@@ -593,6 +600,21 @@ def check_sign(run: Run, prog: Program) -> None:
                   instance=f"{fn.qual}: every set-point negated back, that result returned")
 
 
+def _split_table(prog: Program, dp: FuncInfo) -> str | None:
+    """The fresh table the allocation function fills by stores and returns as the set-points of its result
+    (only when the per-inverter split is not a function of its own)."""
+    rf = fields_of(prog, f"{MOD}:DistributionResult")
+    found = set()
+    for p, _st in regions(dp.node)[0].paths:
+        if p.exit == "return" and isinstance(p.ret, ast.Call) and callee(p.ret) == "DistributionResult":
+            d = ctor_args(p.ret, rf, dp.qual).get(rf[0])
+            if isinstance(d, ast.Name):
+                made = created_as(p, d.id)
+                if isinstance(made, ast.Dict) and not made.keys:
+                    found.add(d.id)
+    return next(iter(found)) if len(found) == 1 else None
+
+
 def check_exits(run: Run, prog: Program) -> None:
     """Every result of _distribute_power carries either the per-inverter split of the cells or all zeros
     (nothing available -> nothing commanded)."""
@@ -617,10 +639,12 @@ def check_exits(run: Run, prog: Program) -> None:
             if isinstance(d, ast.Subscript) and callee(d.value) == sc(prog, "mip"):
                 ok = split = True
             elif isinstance(d, ast.Name):
-                binds = [s.value for s in body_walk(dp.node) if isinstance(s, (ast.Assign, ast.AnnAssign))
-                         and any(isinstance(t, ast.Name) and t.id == d.id
-                                 for t in (s.targets if isinstance(s, ast.Assign) else [s.target]))]
-                ok = bool(binds) and all(zero_table(b) for b in binds)
+                made = created_as(p, d.id)
+                if isinstance(made, ast.Dict) and not made.keys:
+                    # an empty table filled by stores: the per-inverter split done in place (C02.INV decides it)
+                    ok = split = not has(prog, "mip") and _split_table(prog, dp) == d.id
+                else:
+                    ok = zero_table(made)
             else:
                 ok = zero_table(d)
         run.check(ok, "C02.AVAIL", dp.qual, f"return {u(p.ret)[:120]}",
@@ -660,6 +684,7 @@ def check_book(run: Run, prog: Program) -> None:
     seen_args: list[str] = []
     remainders: list[ast.AST] = []
     complements: list[str] = []      # top-up inlined: the local(s) the top-up reduces by what the cells receive
+    topup_loops: set[int] = set()
     if has(prog, "greedy"):
         grp = _own_params(prog.func(q(prog, "greedy")))
         for _r, _p, e in the_call(regs, sc(prog, "greedy"), dp, "C02.BOOK"):
@@ -668,8 +693,18 @@ def check_book(run: Run, prog: Program) -> None:
     else:
         sites = _top_ups(prog, dp)
         complements = sorted({rem for _r, _p, _c, rem in sites if rem is not None})
-        if not sites or len(complements) != 1 or any(rem is None for _r, _p, _c, rem in sites):
-            raise AnalysisError(f"{dp.qual}: no top-up function and no top-up loop with one remainder found")
+        topup_loops = {id(r.loop) for r, _p, _c, _rem in sites}
+        if not sites:
+            raise AnalysisError(f"{dp.qual}: no top-up function and no top-up loop found")
+        if len(complements) != 1 or any(rem is None for _r, _p, _c, rem in sites):
+            bad = next((x for x in sites if x[3] is None), sites[0])
+            run.violation("C02.BOOK", dp.qual, f"change of {bad[2]}.power in the loop at line "
+                          f"{getattr(bad[0].loop, 'lineno', '?')}",
+                          "a cell's power is changed by an amount that is neither the reserve entry of its set nor "
+                          "taken from one remainder that is reduced by exactly that amount: what is handed out is "
+                          "not accounted for", node=at(getattr(bad[0].loop, "lineno", 0)), file=dp.file,
+                          path=bad[1].describe())
+            return
         vals = value_before(dp.node, complements)
         if vals is None:
             raise AnalysisError(f"{dp.qual}: value of `{complements[0]}` before the top-up not found")
@@ -733,8 +768,9 @@ def check_book(run: Run, prog: Program) -> None:
             booked = Poly()
             for nm in names:
                 booked = booked + _delta(te, p, nm)
-            for nm in complements:      # inlined top-up: what the remainder loses is what the cells gain
-                booked = booked - _delta(te, p, nm)
+            if id(r.loop) in topup_loops:   # inlined top-up: what the remainder loses is what the cells gain
+                for nm in complements:
+                    booked = booked - _delta(te, p, nm)
             if gain.is_zero() and booked.is_zero():
                 continue
             touched = True
